@@ -92,6 +92,36 @@ func genBatch(r *rand.Rand, mode string) (BatchCfg, *BatchScript) {
 		c.Items = c.C + r.Intn(3*c.C+8)
 		pFail = 0
 		c.Via = "builder"
+		if r.Intn(2) == 0 {
+			// any c items may depend on each other, not only the first c
+			c.Barrier = r.Perm(c.Items)[:c.C]
+			for i := range c.Barrier {
+				c.Barrier[i]++
+			}
+		}
+	case "rerun": // the node object was used before with a higher concurrency level
+		c.C = 1 + r.Intn(3)
+		c.WarmC = c.C + 1 + r.Intn(4)
+		c.Items = 2*c.WarmC + r.Intn(6)
+		c.Sched = "random"
+		c.Via = "builder"
+		pFail = 0
+	case "waves": // items of a wave complete at the same instant, with different outcomes
+		c.C = 2 + r.Intn(7)
+		c.Items = c.C * (2 + r.Intn(4))
+		c.N = 1 + r.Intn(2)
+		c.Sched, c.Via, c.StopMode = "wave", "builder", false
+		pFail = 0.5
+	case "bigstop": // stop mode, a long queue behind the failing item, an in-flight item succeeding right after the failure
+		c.C = 2 + r.Intn(3)
+		c.Items = 1500
+		c.N, c.Fb, c.StopMode, c.Sched, c.Via, c.Shape = 1, false, true, "bigstop", "builder", "results"
+		pFail = 0
+	case "storm": // many always-failing items on many workers: per-item state must not be shared
+		c.Items, c.C, c.N, c.Sched, c.Via = 48, 8, 2, "free", "builder"
+		c.Fb = r.Intn(2) == 0
+		c.StopMode = false
+		pFail = 1
 	case "single":
 		c.Shape = "single"
 		c.Items = 1
@@ -133,6 +163,9 @@ func genBatch(r *rand.Rand, mode string) (BatchCfg, *BatchScript) {
 			is.Fb.Out = "err"
 		}
 		s.Items[i] = is
+	}
+	if mode == "bigstop" {
+		s.Items[1].Execs[0].Out = "err"
 	}
 	if mode == "cancel" && !c.Ctx0 && c.Items > 0 {
 		// one exec call (or the fallback) cancels the context
@@ -224,7 +257,14 @@ func init() {
 				continue
 			}
 			r := rand.New(rand.NewSource(seed*7919 + int64(mi)))
-			for i := 0; i < count; i++ {
+			n := count
+			if mode == "bigstop" || mode == "storm" { // large scenarios: a handful is enough
+				n = 6
+				if bc := opts["bigcount"]; bc != "" {
+					fmt.Sscanf(bc, "%d", &n)
+				}
+			}
+			for i := 0; i < n; i++ {
 				if tooManyHangs() {
 					break
 				}
